@@ -565,6 +565,10 @@ def run_replay_pair(harness_exe, mode, cases_text, workdir, timeout=900, env=Non
     return irc, il, ierr, mrc, mout.split("\n"), merr
 
 
+# lines only the model driver prints (theorem hypotheses evaluated on the model): never part of the exact diff
+MODEL_ONLY = ("thm ", "thmh ", "tho ")
+
+
 def diff_cases(il, ml, skip_prefixes=("prop ",)):
     """Compare per case; returns (cases_impl, diffs, props) where diffs is a list of
     dicts and props maps case -> list of prop lines."""
@@ -577,7 +581,7 @@ def diff_cases(il, ml, skip_prefixes=("prop ",)):
         if b is None:
             diffs.append({"case": k, "kind": "model produced no output for this case"})
             continue
-        b = [l for l in b if not l.startswith(("thm ", "thmh ", "tho "))]      # model-only lines (theorem hypotheses), read by the caller
+        b = [l for l in b if not l.startswith(MODEL_ONLY)]      # model-only lines (theorem hypotheses), read by the caller
         if a != b:
             d = next((i for i in range(min(len(a), len(b))) if a[i] != b[i]), min(len(a), len(b)))
             diffs.append({"case": k, "line": d, "impl": a[d] if d < len(a) else None,
